@@ -51,12 +51,17 @@ func Compare(slice []any, i int, j int, orderBy OrderByDefinition) (bool, error)
 	if err != nil {
 		return false, err
 	}
-	if first == nil {
-		return false, nil
-	}
 	second, err := ExecReader(slice[j], key)
 	if err != nil {
 		return false, err
+	}
+	if first == nil {
+		if second == nil {
+			// neither row has a value for this key: they tie on it and the
+			// remaining keys decide
+			return Compare(slice, i, j, orderBy[1:])
+		}
+		return false, nil
 	}
 	if second == nil {
 		return true, nil
